@@ -12,6 +12,7 @@ import (
 	"bytes"
 	"encoding/json"
 	"fmt"
+	"github.com/goatcms/goatcore/filesystem"
 	"io"
 	"reflect"
 	"runtime"
@@ -26,6 +27,7 @@ import (
 	"github.com/goatcms/goatcore/i18n/i18mem"
 	"github.com/goatcms/goatcore/varutil/plainmap"
 	"github.com/goatcms/goatcore/workers"
+	"verif/harness/fsmodel"
 	"verif/harness/hx"
 )
 
@@ -90,6 +92,11 @@ type LoadCase struct {
 	CPUs       int     `json:"cpus"`   // confine the process to this many CPUs while loading (0 = all): OS-level time slicing of the GOMAXPROCS threads
 	Files      []LFile `json:"files"`  // translation files (*.json)
 	Other      []LFile `json:"other"`  // files whose name does not end in .json
+	// FailAt > 0: the filespace call number FailAt-1 made by Load (listings, reads, opening and
+	// reading streams) fails with an injected I/O error. A Load that then returns nil must still
+	// have made every key translatable (it reports success); a Load that returns the error is
+	// not judged further.
+	FailAt int `json:"fail_at,omitempty"`
 }
 
 // Exec runs a case of any kind.
@@ -735,7 +742,13 @@ func execLoad(full Case) hx.Verdict {
 	for rep := 0; rep < reps; rep++ {
 		i18 := i18mem.NewI18N()
 		done := make(chan error, 1)
-		go func() { done <- fsi18loader.Load(fs, c.Base, i18, nil) }()
+		var ctl *fsmodel.FaultCtl
+		var loadFS filesystem.Filespace = fs
+		if c.FailAt > 0 && rep == 0 {
+			ctl = fsmodel.NewFaultCtl(c.FailAt - 1)
+			loadFS = fsmodel.NewFaultFS(fs, ctl, "translations")
+		}
+		go func() { done <- fsi18loader.Load(loadFS, c.Base, i18, nil) }()
 		select {
 		case err = <-done:
 		case <-time.After(watchdogOf(rep)):
@@ -751,6 +764,16 @@ func execLoad(full Case) hx.Verdict {
 			v.Label("load:watchdog")
 			return v
 		}
+		faultNote := ""
+		if ctl != nil && ctl.Fired {
+			if err != nil {
+				v.Label("load:injected-io-failure-reported")
+				v.NonTrivial = true
+				continue
+			}
+			v.Label("load:injected-io-failure-not-reported")
+			faultNote = fmt.Sprintf(" (Load returned nil although the filespace call #%d, %s, failed with an I/O error)", c.FailAt-1, ctl.What)
+		}
 		if err != nil {
 			f := hx.Fail("load-error", "Load(%q) over %d valid translation files: %v", c.Base, len(c.Files), err)
 			f.Step = rep
@@ -764,7 +787,7 @@ func execLoad(full Case) hx.Verdict {
 		for _, k := range keys {
 			got, err := i18.Translate(k)
 			if err != nil {
-				f := hx.Fail("every-key-translatable", "run %d, %d files, GOMAXPROCS=%d: Translate(%q): %v (want %q)", rep, len(c.Files), c.GoMaxProcs, k, err, want[k])
+				f := hx.Fail("every-key-translatable", "run %d, %d files, GOMAXPROCS=%d: Translate(%q): %v (want %q)%s", rep, len(c.Files), c.GoMaxProcs, k, err, want[k], faultNote)
 				f.Step = rep
 				return f
 			}
